@@ -453,7 +453,7 @@ Proof.
       { destruct e2; [apply ext_refl|]. pose proof (finish_ext w2 l2) as F. destruct (finish w2 q l2). exact F. }
       apply (SL_continue l_chain (@o_chain) N w1 w2 l1 l2); assumption. }
   destruct (q_join q) as [js|].
-  - destruct (build (j_rhs js) B) as [m|bnr]; [apply (Hmain (Some m)) | left; cbn; split; [lia | reflexivity]].
+  - destruct (build (j_rhs js) B) as [m|bnr]; [apply (Hmain (Some (widen (j_bhdr js) m))) | left; cbn; split; [lia | reflexivity]].
   - apply (Hmain None).
 Qed.
 
@@ -476,7 +476,7 @@ Proof.
     { destruct e; [exact E|]. pose proof (finish_ext w ls) as F. destruct (finish w q ls). eapply ext_trans; [exact E | exact F]. }
     split; [eapply ext_wfn; [apply (wfn_init hdr) | exact X] | eapply ext_wfl; [|exact X]]. reflexivity. }
   destruct (q_join q) as [js|].
-  - destruct (build (j_rhs js) B) as [m|bnr]; [apply (Hmain (Some m)) | exact I0].
+  - destruct (build (j_rhs js) B) as [m|bnr]; [apply (Hmain (Some (widen (j_bhdr js) m))) | exact I0].
   - apply (Hmain None).
 Qed.
 
